@@ -184,3 +184,23 @@ def canon(v):
     if isinstance(v, dict):
         return ("o", tuple(sorted((k, canon(x)) for k, x in v.items())))
     raise TypeError(type(v))
+
+
+def revive(j):
+    """Plain JSON (as stored in corpus / known-findings files, objects tagged {"%": …}) -> generator form
+    (Obj / Num), so that judges see the same structures as for generated operations."""
+    if isinstance(j, dict):
+        if set(j.keys()) == {"%"}:
+            return Obj([(k, revive(v)) for k, v in j["%"]])
+        return {k: revive(v) for k, v in j.items()}
+    if isinstance(j, list):
+        return [revive(x) for x in j]
+    if isinstance(j, bool) or j is None or isinstance(j, str):
+        return j
+    if isinstance(j, int):
+        return Num(str(j))
+    if isinstance(j, float):
+        from .gen_values import dec
+        from fractions import Fraction
+        return Num(dec(Fraction(j)))
+    return j
